@@ -108,6 +108,13 @@ def run(ctx):
             addforms=tset(["rdataset"]), delforms=tset(["rdataset"]), kinds=tset(["read", "write"]), repl="{TRUE, FALSE}",
             types=tset(["SOA", "A", "CNAME"]), rdids=tset([1]), ttls=tset([300]), serialargs="GenSerialSmall",
             ends=tset(["commit", "rollback"])))
+        # G1c: zones created WITHOUT an origin: the transaction learns it (a $ORIGIN line read by
+        #      dns.zonefile.Reader) and nothing of it may be visible outside before the commit
+        scripts += ctx.generate("Gen_ZoneTxn", gen_cfg(
+            ctx, "g1c.cfg", maxops=3, ops=tset(["learn", "add", "get"]), inits="GenInitEmpty", names=tset(["@"]),
+            types=tset(["SOA", "NS"]), rdids=tset([1]), ttls=tset([300]), serialargs="GenSerialSmall",
+            spellings=tset(["rel"]), addforms=tset(["rdataset"]), delforms=tset(["rdataset"]),
+            kinds=tset(["write"]), repl="{TRUE, FALSE}", ends=tset(["commit", "raise"])))
         # G2: all sequences of two writing calls over a trimmed universe
         scripts += ctx.generate("Gen_ZoneTxn", gen_cfg(
             ctx, "g2.cfg", maxops=2, ops=tset(WR), names=tset(["a"] if quick else ["@", "a"]),
